@@ -365,7 +365,7 @@ func (st *sortTable) rangeAssume(t types.Type, x string, depth int) string {
 			return app("<=", "0", app("gstr.len", x))
 		}
 	case *types.Slice:
-		return and(app("<=", "0", app("s.len", x)), app("<=", app("s.len", x), app("s.cap", x)), app("<=", "0", app("s.base", x)),
+		return and(app("<=", "0", app("s.len", x)), app("<=", app("s.len", x), app("s.cap", x)), app("<=", "0", app("s.base", x)), app("<=", app("s.cap", x), maxSliceCap),
 			implies(eq(app("s.base", x), "0"), eq(app("s.cap", x), "0")))
 	case *types.Pointer, *types.Map, *types.Chan:
 		return app("<=", "0", x)
@@ -387,6 +387,9 @@ func (st *sortTable) rangeAssume(t types.Type, x string, depth int) string {
 	}
 	return ""
 }
+
+// maxSliceCap: assumption "no slice has more than 2^47 elements" (amd64 user address space).
+const maxSliceCap = "140737488355328"
 
 func sortedKeys[V any](m map[string]V) []string {
 	ks := make([]string, 0, len(m))
